@@ -119,6 +119,16 @@ func (r *Runner) doLifecycle(s *Step, rep *Reply) bool {
 		if p := r.M.Pods[s.Pod]; p != nil {
 			p.State = StRemoved
 		}
+	case "killpod":
+		// the whole pod is gone: its containers and the sandbox
+		if p := r.M.Pods[s.Pod]; p != nil {
+			for _, c := range r.M.PodCtrs(s.Pod) {
+				if c.State != StRemoved {
+					c.State = StRemoved
+				}
+			}
+			p.State = StRemoved
+		}
 	}
 	return true
 }
